@@ -199,6 +199,54 @@ Proof.
   - rewrite pad_maps_length; rewrite shape_length; auto.
 Qed.
 
+(* the complement indicator: 0 inside the block, 1 outside - row 0 of the chain; row 1 ("already outside") is 1 *)
+Lemma outside_cores_length ns : forall first pd, length pd = length ns -> length (outside_cores (R:=R) first ns pd) = length ns.
+Proof. induction ns as [|n nt IH]; intros first [|[b a] pt] H; simpl in *; try discriminate; auto. Qed.
+Lemma outside_cores_shape ns : forall first pd, length pd = length ns -> shape (outside_cores (R:=R) first ns pd) = pad_shape ns pd.
+Proof.
+  induction ns as [|n nt IH]; intros first [|[b a] pt] H; simpl in *; try discriminate; auto.
+  f_equal. apply IH. lia.
+Qed.
+Lemma outside_cores_chained ns : forall (first : bool) pd, ns <> [] -> length pd = length ns ->
+  chained (if first then 1 else 2)%nat (outside_cores (R:=R) first ns pd).
+Proof.
+  induction ns as [|n nt IH]; intros first [|[b a] pt] Hne H; simpl in H; try discriminate; [congruence|].
+  cbn [outside_cores chained outside_core r0 r1]. split; [reflexivity|].
+  destruct nt as [|n2 nt2].
+  - destruct pt; [|discriminate]. simpl. reflexivity.
+  - apply (IH false pt); [discriminate|lia].
+Qed.
+Lemma outside_wf ns pd : ns <> [] -> length pd = length ns -> wf (outside_tt (R:=R) ns pd).
+Proof.
+  intros Hne H. split.
+  - unfold outside_tt. destruct ns as [|n nt]; [congruence|]. destruct pd as [|[b a] pt]; [discriminate|]. discriminate.
+  - apply (outside_cores_chained ns true pd); assumption.
+Qed.
+Lemma outside_rows ns : forall first pd idx, ns <> [] -> length pd = length ns -> length idx = length ns ->
+  chainM (slices (outside_cores (R:=R) first ns pd) idx) 0%nat 0%nat = (match in_block ns pd idx with Some _ => 0 | None => 1 end)
+  /\ chainM (slices (outside_cores (R:=R) first ns pd) idx) 1%nat 0%nat = 1.
+Proof.
+  induction ns as [|n nt IH]; intros first [|[b a] pt] [|i it] Hne Hp Hi; simpl in Hp, Hi; try discriminate; [congruence|].
+  destruct nt as [|n2 nt2].
+  - destruct pt; [|discriminate]. destruct it; [|discriminate].
+    cbn [outside_cores slices outside_core r1 e3 in_block].
+    rewrite !chainM_single by lia. cbn [Nat.eqb].
+    destruct ((b <=? i)%nat && (i <? b + n)%nat); split; reflexivity.
+  - destruct (IH false pt it) as [H0 H1]; [discriminate|lia|lia|].
+    change (outside_cores first (n :: n2 :: nt2) ((b, a) :: pt)) with (outside_core (R:=R) first false n b a :: outside_cores false (n2 :: nt2) pt).
+    set (T := outside_cores false (n2 :: nt2) pt) in *.
+    cbn [slices outside_core r1 e3].
+    rewrite !chainM_cons. cbn [sum_n Nat.eqb].
+    rewrite H0, H1.
+    change (in_block (n :: n2 :: nt2) ((b, a) :: pt) (i :: it)) with
+      (if (b <=? i)%nat && (i <? b + n)%nat
+       then match in_block (n2 :: nt2) pt it with Some t => Some ((i - b)%nat :: t) | None => None end else None).
+    destruct ((b <=? i)%nat && (i <? b + n)%nat); [destruct (in_block (n2 :: nt2) pt it)|]; split; ring.
+Qed.
+Theorem outside_full ns pd idx : ns <> [] -> length pd = length ns -> length idx = length ns ->
+  entry (outside_tt (R:=R) ns pd) idx = match in_block ns pd idx with Some _ => 0 | None => 1 end.
+Proof. intros Hne Hp Hi. unfold entry, outside_tt. apply (outside_rows ns true pd idx); assumption. Qed.
+
 (* pad(x, padding, value): inside the original block the entries of x, the fill value everywhere else *)
 Theorem pad_tt_full (x : tt R) padding v idx : wf x -> (length padding <= length x)%nat -> length idx = length x ->
   entry (pad_tt x padding v) idx =
@@ -208,28 +256,17 @@ Proof.
   set (pd := fill_pads (length x) padding).
   assert (Hpd : length pd = length x) by (apply fill_pads_length; assumption).
   assert (Hne : shape x <> []) by (destruct Hx as [Hn _]; destruct x; [congruence|discriminate]).
+  assert (Hps : length pd = length (shape x)) by (rewrite shape_length; assumption).
   destruct (reqb v 0) eqn:Ev.
   - apply reqb_eq in Ev. subst v. apply padz_full; assumption.
-  - assert (Hsz : length (shape (padz x pd)) = length x) by (rewrite shape_length; apply padz_length; assumption).
-    assert (Hne2 : shape (padz x pd) <> []) by (intros E; rewrite E in Hsz; simpl in Hsz; destruct x; [destruct Hx; congruence|discriminate]).
-    assert (Hl1 : length (padz (ones_tt (shape x)) pd) = length x).
-    { rewrite padz_length; rewrite ones_length, shape_length; auto. }
-    assert (Hw1 : wf (padz (ones_tt (R:=R) (shape x)) pd)).
-    { apply padz_wf; [rewrite ones_length, shape_length; auto|apply ones_wf; assumption]. }
-    assert (Hws : wf (sub (ones_tt (shape (padz x pd))) (padz (ones_tt (shape x)) pd))).
-    { apply sub_wf; [apply ones_wf; assumption|assumption|rewrite ones_length; lia]. }
-    assert (Hls : length (sub (ones_tt (shape (padz x pd))) (padz (ones_tt (shape x)) pd)) = length x).
-    { rewrite sub_length; rewrite ones_length; lia. }
+  - assert (Hlo : length (outside_tt (R:=R) (shape x) pd) = length x).
+    { unfold outside_tt. rewrite outside_cores_length; [apply shape_length|assumption]. }
+    assert (Hwo : wf (outside_tt (R:=R) (shape x) pd)) by (apply outside_wf; assumption).
     rewrite add_full.
     + rewrite mul_scalar_full by (auto; lia).
-      rewrite sub_full; try (rewrite ?ones_length; auto; lia); [|apply ones_wf; assumption].
-      rewrite ones_full by lia.
-      rewrite !padz_full; try (rewrite ?ones_length, ?shape_length; auto; lia).
-      rewrite ones_shape.
-      destruct (in_block (shape x) pd idx) as [i'|] eqn:Eb.
-      * rewrite ones_full; [ring|].
-        rewrite (in_block_length _ _ _ _ Eb); rewrite ?shape_length; auto.
-      * ring.
+      rewrite padz_full by assumption.
+      rewrite outside_full by (rewrite ?shape_length; auto).
+      destruct (in_block (shape x) pd idx) as [i'|] eqn:Eb; ring.
     + apply padz_wf; assumption.
     + apply mul_scalar_wf; assumption.
     + rewrite mul_scalar_length, padz_length; auto.
